@@ -64,17 +64,32 @@ struct Tally {
             nkey[s]  = site;
         }
     }
-    // hand the measurements of one grid to the observation log (value of a boolean sub-check = number of mismatches)
-    void flush(Obs& obs, const std::string& cls)
+    // hand the measurements of one grid to the observation log (value of a boolean sub-check = number of mismatches).
+    // The witness key names the call site and only those input classes that matter for the sub-check:
+    // wrap path (bit-mask / modulo) for everything periodic, split class for numbering and partition, level for accessors.
+    void flush(Obs& obs, const std::string& wrap_path, const std::string& split_cls, const std::string& level)
     {
         for (int s = 0; s < NSC; s++)
             if (n[s] > 0) {
-                obs.check(SC_NAME[s], (double)bad[s], bad[s] ? cls + "/" + (key[s] ? key[s] : "-") : std::string());
+                std::string pre;
+                switch (s) {
+                case ACCESSORS: pre = level + "/"; break;
+                case WRAP:
+                case PERIODIC: pre = wrap_path + "/"; break;
+                case BIJECTION:
+                case MI_INV_IDX:
+                case IDX_INV_MI:
+                case FORMS:
+                case PARTITION: pre = split_cls + "-split/"; break;
+                default: break;
+                }
+                obs.check(SC_NAME[s], (double)bad[s], bad[s] ? pre + (key[s] ? key[s] : "-") : std::string());
                 obs.counts[SC_NAME[s]] += n[s] - 1;
             }
         for (int s = 0; s < NNC; s++)
             if (nn[s] > 0) {
-                obs.check(NC_NAME[s], worst[s], (worst[s] != 0.0) ? cls + "/" + (nkey[s] ? nkey[s] : "-") : std::string());
+                std::string pre = s == ASPACING ? wrap_path + "/" : std::string();
+                obs.check(NC_NAME[s], worst[s], (worst[s] != 0.0) ? pre + (nkey[s] ? nkey[s] : "-") : std::string());
                 obs.counts[NC_NAME[s]] += nn[s] - 1;
             }
     }
@@ -238,7 +253,6 @@ bool check_grid(const PolarGrid& g, const std::vector<double>& R, const std::vec
     }
 
     // ---- periodic wrap of the angular index
-    const bool p2 = is_pow2(n);
     std::vector<int> far; // sampled far offsets
     for (int s = 0; s < 48; s++) {
         long long u = (long long)(rng.next() % ((1ULL << 31) + 1)) - (1LL << 30); // [-2^30, 2^30]
@@ -251,20 +265,49 @@ bool check_grid(const PolarGrid& g, const std::vector<double>& R, const std::vec
         far.push_back((int)(k * n - 1));
         far.push_back((int)(-k * n + 1));
     }
-    const int special[] = {1 << 30, -(1 << 30), (1 << 30) - 1, -(1 << 30) + 1, (1 << 30) + 1, -(1 << 30) - 1};
+    const int special[] = {1 << 30, -(1 << 30), (1 << 30) - 1, -(1 << 30) + 1, (1 << 30) + 1, -(1 << 30) - 1, INT_MAX, INT_MIN, INT_MAX - 1, INT_MIN + 1};
     for (int u : special)
         far.push_back(u);
-    const int extreme[] = {INT_MAX, INT_MIN, INT_MAX - 1, INT_MIN + 1};
-    for (long long u = -5LL * n; u <= 5LL * n; u++) {
-        const int w = g.wrapThetaIndex((int)u);
-        T.t(WRAP, w == refwrap(u, n), u < 0 ? (p2 ? "bit-mask/near-negative" : "modulo/near-negative") : (u >= n ? (p2 ? "bit-mask/near-positive" : "modulo/near-positive") : (p2 ? "bit-mask/in-range" : "modulo/in-range")));
-    }
-    for (int u : far)
-        T.t(WRAP, g.wrapThetaIndex(u) == refwrap(u, n), u < 0 ? (p2 ? "bit-mask/far-negative" : "modulo/far-negative") : (p2 ? "bit-mask/far-positive" : "modulo/far-positive"));
-    for (int u : extreme)
-        T.t(WRAP, g.wrapThetaIndex(u) == refwrap(u, n), u < 0 ? (p2 ? "bit-mask/INT_MIN" : "modulo/INT_MIN") : (p2 ? "bit-mask/INT_MAX" : "modulo/INT_MAX"));
+    // range class of an unwrapped index (part of the witness key)
+    enum { IN_RANGE, NEAR_NEG, NEAR_POS, FAR_NEG, FAR_POS, INTMIN, INTMAX, NRANGE };
+    auto rclass = [n](long long u) -> int {
+        if (u >= 0 && u < n)
+            return IN_RANGE;
+        if (u >= INT_MAX - 1)
+            return INTMAX;
+        if (u <= INT_MIN + 1)
+            return INTMIN;
+        if (u < 0)
+            return u >= -5LL * n ? NEAR_NEG : FAR_NEG;
+        return u <= 5LL * n ? NEAR_POS : FAR_POS;
+    };
+    static const char* const K_WRAP[NRANGE]  = {"in-range", "near-negative", "near-positive", "far-negative", "far-positive", "INT_MIN", "INT_MAX"};
+    static const char* const K_IDX_C[NRANGE] = {"index/in-range/circle-section", "index/near-negative/circle-section", "index/near-positive/circle-section", "index/far-negative/circle-section",
+                                                "index/far-positive/circle-section", "index/INT_MIN/circle-section", "index/INT_MAX/circle-section"};
+    static const char* const K_IDX_R[NRANGE] = {"index/in-range/radial-section", "index/near-negative/radial-section", "index/near-positive/radial-section", "index/far-negative/radial-section",
+                                                "index/far-positive/radial-section", "index/INT_MIN/radial-section", "index/INT_MAX/radial-section"};
+    static const char* const K_SKIP[NRANGE]  = {"not-called:wrapThetaIndex-out-of-range/in-range", "not-called:wrapThetaIndex-out-of-range/near-negative", "not-called:wrapThetaIndex-out-of-range/near-positive",
+                                                "not-called:wrapThetaIndex-out-of-range/far-negative", "not-called:wrapThetaIndex-out-of-range/far-positive", "not-called:wrapThetaIndex-out-of-range/INT_MIN",
+                                                "not-called:wrapThetaIndex-out-of-range/INT_MAX"};
+    static const char* const K_ASP[NRANGE]   = {"angularSpacing/in-range", "angularSpacing/near-negative", "angularSpacing/near-positive", "angularSpacing/far-negative", "angularSpacing/far-positive",
+                                                "angularSpacing/INT_MIN", "angularSpacing/INT_MAX"};
+    // all offsets that are handed to the library: exhaustive in +-5n, then the far ones
+    std::vector<int> near5, near3;
+    for (long long u = -5LL * n; u <= 5LL * n; u++)
+        near5.push_back((int)u);
+    for (long long u = -2LL * n - 1; u <= 3LL * n; u++)
+        near3.push_back((int)u);
+    // index(i,u) and angularSpacing(u) assert on the wrapped value: they are only called for offsets whose
+    // wrapThetaIndex() result is a valid index (otherwise the missing evaluation is recorded as a mismatch)
+    auto wrap_valid = [&](int u) {
+        const int w = g.wrapThetaIndex(u);
+        return w >= 0 && w < n;
+    };
+    for (const std::vector<int>* list : {&near5, &far})
+        for (int u : *list)
+            T.t(WRAP, g.wrapThetaIndex(u) == refwrap(u, n), K_WRAP[rclass(u)]);
 
-    // index(i, u) and angularSpacing(u) for unwrapped u, on the rows around the split, both boundaries and a random one
+    // index(i, u) for unwrapped u, on the rows around the split, both boundaries and a random one
     {
         std::vector<int> rows = {0, nr - 1, C - 1, C, rng.range(0, nr - 1)};
         std::sort(rows.begin(), rows.end());
@@ -273,20 +316,15 @@ bool check_grid(const PolarGrid& g, const std::vector<double>& R, const std::vec
             if (i < 0 || i >= nr)
                 continue;
             const bool circ = i < C;
-            for (long long u = -2LL * n - 1; u <= 3LL * n; u++) {
-                const int w = refwrap(u, n);
-                T.t(PERIODIC, g.index(i, (int)u) == table[(size_t)i * n + w],
-                    u < 0 ? (circ ? "index/near-negative/circle-section" : "index/near-negative/radial-section")
-                          : (u >= n ? (circ ? "index/near-positive/circle-section" : "index/near-positive/radial-section") : (circ ? "index/in-range/circle-section" : "index/in-range/radial-section")));
-            }
-            for (int u : far) {
-                const int w = refwrap(u, n);
-                T.t(PERIODIC, g.index(i, u) == table[(size_t)i * n + w], u < 0 ? "index/far-negative" : "index/far-positive");
-            }
-            for (int u : extreme) {
-                const int w = refwrap(u, n);
-                T.t(PERIODIC, g.index(i, u) == table[(size_t)i * n + w], u < 0 ? "index/INT_MIN" : "index/INT_MAX");
-            }
+            for (const std::vector<int>* list : {&near3, &far})
+                for (int u : *list) {
+                    const int rc = rclass(u);
+                    if (!wrap_valid(u)) {
+                        T.t(PERIODIC, false, K_SKIP[rc]);
+                        continue;
+                    }
+                    T.t(PERIODIC, g.index(i, u) == table[(size_t)i * n + refwrap(u, n)], circ ? K_IDX_C[rc] : K_IDX_R[rc]);
+                }
         }
     }
 
@@ -294,19 +332,16 @@ bool check_grid(const PolarGrid& g, const std::vector<double>& R, const std::vec
     for (int i = 0; i + 1 < nr; i++)
         T.v(RSPACING, serr(g.radialSpacing(i), cdiff(R[i + 1], R[i]), EPS * R[i + 1]), "radialSpacing(i)");
     const double ASCALE = EPS * 2.0 * M_PI;
-    for (long long u = -2LL * n - 1; u <= 3LL * n; u++) {
-        const int w = refwrap(u, n);
-        T.v(ASPACING, serr(g.angularSpacing((int)u), cdiff(A[w + 1], A[w]), ASCALE),
-            u < 0 ? "angularSpacing/near-negative" : (u >= n ? "angularSpacing/near-positive" : (w == n - 1 ? "angularSpacing/last-interval" : "angularSpacing/in-range")));
-    }
-    for (int u : far) {
-        const int w = refwrap(u, n);
-        T.v(ASPACING, serr(g.angularSpacing(u), cdiff(A[w + 1], A[w]), ASCALE), u < 0 ? "angularSpacing/far-negative" : "angularSpacing/far-positive");
-    }
-    for (int u : extreme) {
-        const int w = refwrap(u, n);
-        T.v(ASPACING, serr(g.angularSpacing(u), cdiff(A[w + 1], A[w]), ASCALE), u < 0 ? "angularSpacing/INT_MIN" : "angularSpacing/INT_MAX");
-    }
+    for (const std::vector<int>* list : {&near3, &far})
+        for (int u : *list) {
+            const int rc = rclass(u);
+            if (!wrap_valid(u)) {
+                T.t(PERIODIC, false, K_SKIP[rc]);
+                continue;
+            }
+            const int w = refwrap(u, n);
+            T.v(ASPACING, serr(g.angularSpacing(u), cdiff(A[w + 1], A[w]), ASCALE), (rc == IN_RANGE && w == n - 1) ? "angularSpacing/last-interval" : K_ASP[rc]);
+        }
 
     // ---- neighbours and neighbour distances of every node
     // expected neighbour = the node whose coordinates are the adjacent entries of the coordinate arrays
@@ -530,11 +565,12 @@ static void run_case(CaseCtx& c)
             A     = src.gs.angles;
             split = src.gs.split;
         }
-        std::string pfx = std::string(is_pow2((int)A.size() - 1) ? "pow2" : "nonpow2") + "/" + scls + "-split/" + (src.parametric ? "parametric" : "fine");
+        const std::string level = src.parametric ? "parametric" : "fine";
+        c.announce(std::string(is_pow2((int)A.size() - 1) ? "bit-mask" : "modulo") + "/" + level);
         {
             Tally T;
             bool ok = check_grid(g, R, A, split, rng, T, &c.obs.info);
-            T.flush(c.obs, pfx);
+            T.flush(c.obs, is_pow2((int)A.size() - 1) ? "bit-mask" : "modulo", scls, level);
             levels = 1;
             nodes_total += (long long)R.size() * ((long long)A.size() - 1);
             int C      = g.numberSmootherCircles();
@@ -572,9 +608,9 @@ static void run_case(CaseCtx& c)
                 T.t(COARSEN, cg.angles().size() == (size_t)cn + 1 && cg.angles().front() == A.front(), "first-angle");
                 T.t(COARSEN, cg.angles().size() == (size_t)cn + 1 && cg.angles().back() == A.back(), "last-angle");
             }
-            std::string cpfx = std::string(is_pow2(cn) ? "pow2" : "nonpow2") + "/auto-split/coarse";
+            c.announce(std::string(is_pow2(cn) ? "bit-mask" : "modulo") + "/coarse");
             bool ok          = check_grid(cg, R2, A2, std::nullopt, rng, T, nullptr);
-            T.flush(c.obs, cpfx);
+            T.flush(c.obs, is_pow2(cn) ? "bit-mask" : "modulo", "auto", "coarse");
             if (!ok)
                 break;
             levels++;
